@@ -95,7 +95,7 @@ def bundle_value(rnd):
 def random_bytes(rnd):
     k = rnd.random()
     if k < 0.3:
-        return bytes(rnd.randrange(256) for _ in range(rnd.choice([0, 1, 3, 4, 8, 12, 16, 20, 24, 33, 64])))
+        return bytes(rnd.randrange(256) for _ in range(rnd.choice([0, 0, 0, 1, 3, 4, 8, 12, 16, 20, 24, 33, 64])))
     if k < 0.6:
         return b'/a' + bytes(rnd.choice([0, 0, 0, 44, 105, 115, 98, 102, 91, 93, 255]) for _ in range(rnd.choice([2, 6, 10, 14, 18])))
     return b'#bundle\0' + bytes(rnd.choice([0, 0, 0, 1, 4, 8, 12, 47, 97, 44, 255, 128]) for _ in range(rnd.choice([0, 4, 8, 12, 16, 20, 28])))
@@ -138,6 +138,8 @@ def random_history(rnd, faults):
             ev.append(recv(rnd, dg=rnd.choice(faults)))
         else:
             ev.append(recv(rnd, dg=random_bytes(rnd)))
+            if rnd.random() < 0.5:
+                ev[-1]['src'] = rnd.choice(HOSTILE_SENDERS)
     return ev
 
 
@@ -194,6 +196,29 @@ def multipath_random(rnd):
         else:
             ev.append(dict(op='recv', v=g.Bn(g.K('none'), [g.M(pat, []), g.M(rnd.choice(paths), [])]), src=SENDERS[0], via=1))
     return ev
+
+
+HOSTILE_SENDERS = [dict(h=2, p=1), dict(h=3, p=1), dict(h=2, p=2), dict(h=3, p=2), dict(h=2, p=5001), dict(h=3, p=5002), dict(h=1, p=5002)]
+HOSTILE_PAYLOADS = [b'', b'\0', b'\0\0\0\0', b'/a', b'#bundle\0', b'\xff' * 7, b'/a\0\0,i\0\0', b'#bundle\0' + bytes(7) + b'\1\xff\xff\xff\xfc']
+
+
+def hostile_histories():
+    """Hostile datagrams at socket level (run through real UDP loopback): empty payloads and garbage from other
+    loopback addresses, with a source port NUMBER equal / not equal to the library's own ports, to the main and to
+    the extra interface - each followed by a normal message that must still be delivered."""
+    plain = dict(src=dict(h=0, p=0), rport=0, tmpl=[], os=False, beh=QUIET)
+    ok = dict(h=1, p=5001)
+    out = []
+    for via in (1, 2):
+        for snd in HOSTILE_SENDERS:
+            ev = [dict(op='create', kind='exact', path=codes('/a'), **plain), dict(op='create', kind='matching', path=codes('/ab'), **plain),
+                  dict(op='recv', v=g.M('/a', [g.I(0)]), src=ok, via=via)]
+            for k, pl in enumerate(HOSTILE_PAYLOADS):
+                ev.append(dict(op='recv', dg=list(pl), src=snd, via=via))
+                ev.append(dict(op='recv', v=g.M('/a', [g.I(k + 1)]), src=ok, via=via))
+                ev.append(dict(op='recv', v=g.M('/a?', [g.I(k + 1)]), src=snd, via=via))
+            out.append(ev)
+    return out
 
 
 def directed_histories():
@@ -277,7 +302,9 @@ def sim_histories(ctx, num, cfg='DispatchModel_sim.cfg', depth=14, seed_off=1, s
         ev = []
         for act, st in b[1:]:
             op = st['op']
-            if op['op'] == 'recv':
+            if op['op'] == 'hostile':
+                ev.append(dict(op='recv', src=op['src'], via=op['via'], dg=[] if op['k'] == 'empty' else [255] * 7))
+            elif op['op'] == 'recv':
                 m = op['m']
                 ev.append(dict(op='recv', src=op['src'], via=op['via'], v=dict(t='m', a=m['a'], args=m['args'])))
             else:
@@ -435,8 +462,9 @@ def judge(ctx, cases, traces):
         verdicts, _ = oscv.validate(ctx, module, module + '.cfg', sub, tag=kind, all_rej=all_rej)
         ctx.cov.setdefault('phase_wall_s', {})['validate_' + kind] = round(time.time() - t0, 1)
         return verdicts
-    with ThreadPoolExecutor(max_workers=3) as ex:      # the three trace specs side by side
-        for verdicts in ex.map(one, list(SPEC)):
+    kinds = [k for k in SPEC if any(c['kind'] == k for c in cases)]
+    with ThreadPoolExecutor(max_workers=3) as ex:      # the trace specs side by side
+        for verdicts in ex.map(one, kinds):
             res.update(verdicts)
     for c in cases:
         v = res[c['id']]
@@ -480,7 +508,7 @@ def run(ctx):
     # design models, side by side (each TLC run in a work directory of its own)
     def mc(sub, module, cfg, cover, what, label=None):
         try:
-            r = tlc.run(module, cfg, os.path.join(ctx.work, sub), workers=NCPU, coverage=True, timeout=1500)
+            r = tlc.run(module, cfg, os.path.join(ctx.work, sub), workers=max(2, NCPU // 2), coverage=True, timeout=1500)
         except tlc.TlcError as e:
             raise tlc.TlcError('%s/%s: %s' % (module, cfg, e))
         run_ = dict(module=module, cfg=cfg, **r.summary())
@@ -510,6 +538,9 @@ def run(ctx):
                        mc('m4', 'RegistriesModel', 'RegistriesModel.cfg', ('Add', 'Remove', 'RemoveAll', 'Run'), 'RegistriesModel'),
                        fault_datagrams(ctx))[-1],
     )
+    # the match table needs no model output: drive and judge it while the models run
+    mcases = match_cases(4 if thorough else 3, 4 if thorough else 3)
+    jobs['matchtable'] = lambda: judge(ctx, mcases, run_cases(ctx, mcases))
     tm0 = time.time()
     with ThreadPoolExecutor(max_workers=len(jobs)) as ex:
         futs = {k: ex.submit(f) for k, f in jobs.items()}
@@ -520,13 +551,14 @@ def run(ctx):
     t0 = time.time()
     phases = ctx.cov.setdefault('phase_wall_s', {})
     rnd = random.Random(ctx.seed)
-    cases = match_cases(4 if thorough else 3, 4 if thorough else 3)
-    nmatch = len(cases)
+    cases = []
+    nmatch = len(mcases)
     ctx.cov['fault_datagrams'] = dict(total=len(faults), bad=sum(1 for _, k in faults if k == 'bad'))
     fb = [b for b, _ in faults]
     hs = [dict(kind='dispatch', ev=h, src='directed') for h in directed_histories()]
     hs += [dict(kind='dispatch', ev=h, src='model') for h in sims]
     hs += [dict(kind='dispatch', ev=h, src='directed') for h in multipath_histories()]
+    hs += [dict(kind='dispatch', ev=h, src='hostile/udp', udp=True) for h in hostile_histories()]
     ctx.cov['spec_behaviours_replayed'] = sum(1 for h in hs if h['src'] == 'model')
     # every fault datagram once, each followed by a normal message
     plain = dict(src=dict(h=0, p=0), rport=0, tmpl=[], os=False, beh=QUIET)
@@ -549,7 +581,7 @@ def run(ctx):
     traces = run_cases(ctx, cases)
     phases['drivers'] = round(time.time() - t0, 1)
     t0 = time.time()
-    ctx.cov['evaluations'] += len(cases)
+    ctx.cov['evaluations'] += len(cases) + len(mcases)
     judge(ctx, cases, traces)
     phases['validate'] = round(time.time() - t0, 1)
     hangs = sum(1 for c in hs for e in traces[c['id']]['ev'] if e['op'] == 'recv' and e['out'] != 'ok')
